@@ -97,6 +97,12 @@ type Query struct {
 	// is a docID that never existed. Duplicates are dropped, the list is never empty.
 	IDMode int   `json:"idmode,omitempty"`
 	IDs    []int `json:"ids,omitempty"`
+	// NameOp/Names (hf tf cnthf cnttf): a SECOND condition inside the relation block, on the related
+	// document's immutable unique name: "" none, _ne _eq (first name) or _nin _in (all names). Names
+	// select documents of the related collection modulo all ever created there. The related document
+	// must satisfy both conditions at once.
+	NameOp string `json:"nameop,omitempty"`
+	Names  []int  `json:"names,omitempty"`
 }
 
 // Case is one generated history plus the reads made at its end.
@@ -299,6 +305,16 @@ func drawQuery(t *rapid.T, tp topoDef, c Case) Query {
 	q.K = normalKind(q.K, tp, q.Rel)
 	constrainQuery(&q, tp, c)
 	q.K = normalKind(q.K, tp, q.Rel)
+	switch q.K {
+	case "hf", "tf", "cnthf", "cnttf":
+		if rapid.IntRange(0, 2).Draw(t, "qname") == 0 {
+			// two conditions on the related document: the one on n (possibly index-served, positive so
+			// that the reference semantics is defined) and one on its name
+			q.Op = toPos(q.Op)
+			q.NameOp = rapid.SampledFrom([]string{"_ne", "_nin", "_nin", "_in", "_eq"}).Draw(t, "qnameop")
+			q.Names = rapid.SliceOfN(rapid.IntRange(0, 7), 1, 3).Draw(t, "qnames")
+		}
+	}
 	return q
 }
 
